@@ -12,6 +12,9 @@ PROPS = {
     "C05": K("c05", bounds="no loop; all canonical addresses/pages, all usize counts"),
     "C06": K("c06", bounds="no loop; all u64 addresses x all 64 power-of-two alignments (k<=47 for VirtAddr)"),
     "C08": K("c08", bounds="all raw entries / aligned addresses / flag sets; 3-step setter programs; all 512 slots (unwind 514)"),
+    "C12": K("c12", extra=["-Z", "stubbing"], bounds="all 256 vectors, all u8 bound pairs of 15 range forms, all canonical handler addresses, 3-step option-setter programs (unwind 4)",
+             stubs=["S-addr: VirtAddr::new -> new_unsafe in c12_load_hands_cpu_own_address only (CBMC object addresses are never canonical)"],
+             trusted_base=["rustc->Kani->CBMC", "CaDiCaL", "overlay O1-O4", "ISA model (mov r,cs; lidt)"]),
     "C14": K("c14", bounds="one append from every valid table state, MAX in {1,2,3,8,9} (unwind MAX+2); all descriptors, all u16 selectors"),
     "C15": K("c15", bounds="no loop; all 2^64 TSS addresses, all descriptor bit patterns"),
     "C16": K("c16", bounds="no loop (PAT: unwind 9); all prior register contents x all argument values; ISA model of ~35 instructions is the trusted base",
